@@ -421,7 +421,7 @@ class Spec:
 # ----------------------------------------------------------------------
 # numeric variants: alphabet invariant
 # ----------------------------------------------------------------------
-NUM_KEYS = ["0", "5", "-", ".", ",", "a", "g", "left", "right", "home", "end", "backspace", "delete"]
+NUM_KEYS = ["0", "5", "-", ".", ",", "a", "g", "\u00b2", "\u0663", "left", "right", "home", "end", "backspace", "delete"]
 
 
 def num_configs(tier):
